@@ -226,7 +226,8 @@ def main():
     rep = common.Report(PID, "model_checking")
     rep.rule = ("one case = (tdm skeleton, load | round trip) run symbolically with all array elements/literals as solver variables, "
                 "or one concrete string-argument case; distinct = distinct (skeleton, part)")
-    rep.bounds = {"p-arrays": "1-3 per script, names p0 p1 p12 p007 p3, 1xn n<=3 and 2x2", "dtypes": "int float complex", "strings": STRINGS}
+    rep.bounds = {"p-arrays": "1-3 per script, names p0 p1 p12 p007 p3, 1xn n<=3 and 2x2", "dtypes": "int float complex", "strings": STRINGS,
+                  "p-arrays stored through the API": sorted(_parrays())}
     rep.assumptions = [
         "reference: by-name delivery iff program type is tdm and the array name is p followed by digits (bbverif/ref/interp.py)",
         "string-argument cases are concrete (no solver)",
